@@ -1540,6 +1540,9 @@ def replay(case):
 # --------------------------------------------------------------------------- #
 
 C = "complex128"
+# {transpose} x {dagger}: every entry point that takes both options gets all four combinations; the
+# docstrings say "transpose ... implied by dagger", so 'b' (both True) means G^dagger everywhere
+FLAGS4 = ("n", "t", "d", "b")
 
 
 def _targets(tier):
@@ -1610,7 +1613,7 @@ def _cells_modes(tier):
     """A: target x where x contract mode x {plain, transpose, dagger}."""
     T = _targets(tier)
     cells = []
-    flags = ("n", "t", "d") if tier == "quick" else ("n", "t", "d", "b")
+    flags = FLAGS4
     for fam in ("mps", "cmps", "peps", "gvec", "dense1d"):
         for t in T[fam]:
             for where in _wheres(t, 3, tier):
@@ -1687,7 +1690,7 @@ def _cells_1d(tier):
             L = len(t[1])
             pairs = list(itertools.permutations(range(L), 2))
             for where in pairs:
-                for f in ("n", "t", "d"):
+                for f in FLAGS4:
                     for inp in (False, True):
                         cells.append({"t": t, "steps": ({"e": "gate_split", "w": where, "f": f, "inp": inp},)})
                     for sb in (True, False):
@@ -1699,7 +1702,7 @@ def _cells_1d(tier):
                         cells.append({"t": t, "steps": ({"e": "swap", "w": where, "m": m, "inp": inp},)})
                 # compress options other than the exact profile: quimb's defaults / only a roomy max_bond
                 for co in ("default", "mb"):
-                    for f in ("n", "t", "d"):
+                    for f in FLAGS4:
                         cells.append({"t": t, "steps": ({"e": "gate_with_auto_swap", "w": where, "f": f, "co": co},)})
                         for m in ("swap+split", "auto-mps", "split", "reduce-split") + (("nonlocal",) if fam == "mps" else ()):
                             cells.append({"t": t, "steps": ({"e": "gate", "w": where, "m": m, "f": f, "co": co},)})
@@ -1709,7 +1712,7 @@ def _cells_1d(tier):
                 if len(where) < 2:
                     continue
                 for m in NONLOCAL_METHODS:
-                    for f in ("n", "t"):  # gate_nonlocal documents transpose only
+                    for f in FLAGS4:  # gate_nonlocal documents transpose and dagger
                         for dims in (False, True):
                             cells.append({"t": t, "steps": ({"e": "gate_nonlocal", "w": where, "m": m, "f": f, "dims": dims},)})
                     for f in ("n", "t"):
@@ -1755,7 +1758,7 @@ def _cells_operator(tier):
     flags, gate_sandwich_inds, MPO.gate_sandwich_with_auto_swap."""
     T = _targets(tier)
     cells = []
-    flags = ("n", "t", "d")
+    flags = FLAGS4
     for fam in ("mpo", "gop"):
         for t in T[fam]:
             for where in _wheres(t, 3, tier):
@@ -1800,7 +1803,7 @@ def _cells_simple(tier):
                     # documented NotImplementedError for > 2 sites: one cell per where, not crossed
                     cells.append({"t": t, "steps": ({"e": "gate_simple", "w": where},)})
                     continue
-                for f in ("n", "t", "d"):
+                for f in FLAGS4:
                     for g in ("all", "half"):
                         for form in ("mat", "ten"):
                             st = {"e": "gate_simple", "w": where, "f": f, "g": g, "op": ("generic", form)}
@@ -1831,7 +1834,7 @@ def _cells_raw(tier):
                     # rejected for every where of size 3: one cell, not crossed with flags / forms
                     cells.append({"t": t, "steps": ({"e": "gate_inds", "w": where, "m": m},)})
                     continue
-                for f in ("n", "t", "d"):
+                for f in FLAGS4:
                     for form in ("mat", "ten"):
                         cells.append({"t": t, "steps": ({"e": "gate_inds", "w": where, "m": m, "f": f, "op": ("generic", form)},)})
                 for kind in ("product", "swaplike", "diag", "identity"):
@@ -1930,8 +1933,8 @@ def _hist_pairs(t, firsts, menu):
         for b in menu:
             b2 = dict(b)
             b2["n"] = 1
-            b2["f"] = "d" if (len(a["w"]) + len(b["w"])) % 2 else "n"
-            if b2["f"] == "d" and (b2["e"] == "gate_nonlocal" or (b2["e"] == "gate" and b2["m"] in ("nonlocal", "auto-mps"))):
+            b2["f"] = ("d", "n", "b")[(len(a["w"]) + len(b["w"])) % 3]
+            if b2["f"] in ("d", "b") and (b2["e"] == "gate_nonlocal" or (b2["e"] == "gate" and b2["m"] in ("nonlocal", "auto-mps"))):
                 b2["f"] = "t"  # gate_nonlocal documents transpose only (the dispatcher's dagger is table 'modes')
             cells.append({"t": t, "steps": (dict(a), b2)})
     return cells
@@ -2095,7 +2098,7 @@ def run(ctx):
         "targets": core.jsonable(_targets(ctx.tier)),
         "where": "every ordered tuple of distinct sites of size 1..2; size 3: " + ("ascending + one rotated + the reversed order per triple" if quick else "every ordered triple"),
         "modes": [str(m) for m in GENERIC + MODES_1D],
-        "flags": "plain, transpose, dagger" + ("" if quick else ", dagger+transpose"),
+        "flags": "the full product {transpose} x {dagger}: plain, transpose, dagger, both (documented: transpose is implied by dagger, so both = G^dagger) for every entry point taking both options; entry points with one option get that one",
         "operators": "generic complex, generic real, identity, diagonal, product, swap-like (rank one across the gate); as matrix and as 2k-tensor",
         "nonlocal_methods": list(NONLOCAL_METHODS),
         "history_depth": "2" if quick else "2 (8 targets), 3 on the 3-site open MPS with 6 modes",
